@@ -539,6 +539,77 @@ func checkC12(c *Check) {
 		}
 	}
 
+	// R10: after a restart every stored message is put back on the wheel, at a time computed from ITS OWN record. The
+	// time handed to wheel.Add for a loaded record depends only on values that are (re)computed for that record inside
+	// the loop over the spool – nothing declared outside the loop (a minimum carried over from the previous record makes
+	// a message with four failed attempts retry at the pace of a fresh one, burning max_tries ahead of its schedule).
+	c.Rule("R10", "recovery: every loaded record is re-scheduled (wheel.Add inside the loop over the spool), and the time it is scheduled for depends only on that record – every variable it is computed from is declared inside the loop or is configuration", 1)
+	if r := c.need("R10", queueRel, "Queue", "readDiskQueue"); r != nil {
+		msg := "undecided: no re-scheduling of loaded records found"
+		ast.Inspect(r.FI.Decl.Body, func(x ast.Node) bool {
+			rs, ok := x.(*ast.RangeStmt)
+			if !ok {
+				return true
+			}
+			for _, call := range callsIn(rs.Body) {
+				if !isCall(info, call, "~/"+queueRel+".TimeWheel.Add") || len(call.Args) < 1 {
+					continue
+				}
+				msg = ""
+				// backward closure of the time argument over the assignments in the loop body
+				deps := map[types.Object]bool{}
+				var work []types.Object
+				addIdents := func(e ast.Node) {
+					ast.Inspect(e, func(y ast.Node) bool {
+						if id, ok := y.(*ast.Ident); ok {
+							if v, isVar := info.Uses[id].(*types.Var); isVar && !v.IsField() && !deps[v] {
+								deps[v] = true
+								work = append(work, v)
+							}
+						}
+						return true
+					})
+				}
+				addIdents(call.Args[0])
+				for len(work) > 0 {
+					v := work[0]
+					work = work[1:]
+					ast.Inspect(rs.Body, func(y ast.Node) bool {
+						switch a := y.(type) {
+						case *ast.AssignStmt:
+							for i, l := range a.Lhs {
+								if objOf(info, l) == v {
+									if len(a.Rhs) == len(a.Lhs) {
+										addIdents(a.Rhs[i])
+									} else if len(a.Rhs) == 1 {
+										addIdents(a.Rhs[0])
+									}
+								}
+							}
+						case *ast.RangeStmt:
+							if (a.Key != nil && objOf(info, a.Key) == v) || (a.Value != nil && objOf(info, a.Value) == v) {
+								addIdents(a.X)
+							}
+						}
+						return true
+					})
+				}
+				for v := range deps {
+					inLoop := v.Pos() >= rs.Pos() && v.Pos() < rs.End()
+					isRecv := false
+					if rl := r.FI.Decl.Recv; rl != nil && len(rl.List) == 1 && len(rl.List[0].Names) == 1 && info.Defs[rl.List[0].Names[0]] == types.Object(v) {
+						isRecv = true
+					}
+					if !inLoop && !isRecv && assignedAnywhere(info, rs.Body, v) {
+						msg = "the time a loaded record is re-scheduled for depends on " + v.Name() + ", which is declared outside the loop over the spool and updated inside it: what the previous record left there decides this record's retry time (a message that already failed several times is retried at the pace of the least-tried message before it – max_tries is burnt ahead of schedule)"
+					}
+				}
+			}
+			return true
+		})
+		c.Hold("R10", "readDiskQueue:per-record-schedule", r.FI.Decl.Pos(), msg == "", msg)
+	}
+
 	c.Rule("R5", "the panic handler of an attempt renames the metadata (quarantine) and never removes spool files", 1)
 	c.Rule("R6", "the synchronous part of the dispatch callback (it runs on the scheduler goroutine) performs no blocking operation", 1)
 	if r := c.need("R6", queueRel, "Queue", "dispatch"); r != nil {
